@@ -22,7 +22,8 @@ def main():
         mc=[('MC_SpinePaths', 'MC_SpinePaths_c03.cfg', 'MC_SpinePaths(Conserve)')],
         populations=[('main', dp.sess_c03, 300, 5000, {}),
                      ('hidden', dp.sess_c03, 40, 400, {'profile': 'hidden'}),
-                     ('explore_chords', dp.sess_c03, 40, 400, {'profile': 'explore_chords'})],
+                     ('explore_chords', dp.sess_c03, 40, 400, {'profile': 'explore_chords'}),
+                     ('dots', dp.sess_c03, 40, 400, {'dots': True})],
         nontrivial=lambda s: bool(set(s['tags']) & {'split', 'chord', 'non-kern'}),
         explored=['hidden_barline', 'chord_note_without_duration'])
 
